@@ -870,6 +870,154 @@ def expand_scope_classes(modules, known, rep):
                 mod.tree.body.remove(c)
 
 
+# ---------------------------------------------------------------------------------------------- N26 tuple assignment / N6b
+def split_tuple_assign(modules, known, rep):
+    """a new `a, b = (e1, e2)` over plain names, where no value reads a target assigned before it, is `a = e1; b = e2` (`x = x` dropped)"""
+    for rel, sc, fn in all_functions(modules):
+        kh = _known_hashes(known, rel, sc, fn)
+        if kh is None:
+            continue
+        for owner, fld, stmts in list(_blocks(fn)):
+            i = 0
+            while i < len(stmts):
+                st = stmts[i]
+                if isinstance(st, ast.Assign) and len(st.targets) == 1 and isinstance(st.targets[0], ast.Tuple) and isinstance(st.value, ast.Tuple) \
+                        and len(st.targets[0].elts) == len(st.value.elts) and all(isinstance(t, ast.Name) for t in st.targets[0].elts) and _is_fresh(st, fn, kh) \
+                        and not any(isinstance(v, ast.Starred) for v in st.value.elts):
+                    tl = [t.id for t in st.targets[0].elts]
+                    safe = True
+                    for j, v in enumerate(st.value.elts):
+                        for n in ast.walk(v):
+                            if isinstance(n, ast.Name) and n.id in tl[:j] and not (isinstance(st.value.elts[tl.index(n.id)], ast.Name) and st.value.elts[tl.index(n.id)].id == n.id):
+                                safe = False
+                    if safe and len(set(tl)) == len(tl):
+                        new = []
+                        for t, v in zip(tl, st.value.elts):
+                            if isinstance(v, ast.Name) and v.id == t:
+                                continue
+                            a = ast.copy_location(ast.Assign([ast.Name(t, ast.Store())], v, lineno=st.lineno), st)
+                            ast.fix_missing_locations(a)
+                            new.append(a)
+                        stmts[i:i + 1] = new or [ast.copy_location(ast.Pass(), st)]
+                        rep.other.append(f"tuple assignment at {rel}:{st.lineno} read element-wise")
+                        i += len(new) or 1
+                        continue
+                i += 1
+
+
+def propagate_block_constants(modules, known, rep):
+    """A new local that is only ever given literal constants, each read standing in the same block behind the assignment that
+    feeds it (nothing stores it in between): the reads are those constants.
+
+        if d == OUT: sql = 'A'; run(sql)            if d == OUT: run('A')
+        elif d == IN: sql = 'B'; run(sql)     =>    elif d == IN: run('B')
+    """
+    kl = known.get("locals") or {}
+    for rel, sc, fn in all_functions(modules):
+        key = f"{rel}::{sc}.{fn.name}"
+        if key not in kl:
+            continue
+        known_locals = set(kl[key])
+        params = set(_params(fn))
+        if any(isinstance(x, FUNC + (ast.Lambda,)) and x is not fn for x in ast.walk(fn)):
+            continue
+        cands = {}
+        for n in ast.walk(fn):
+            if isinstance(n, ast.Name) and isinstance(n.ctx, (ast.Store, ast.Del)) and n.id not in known_locals and n.id not in params:
+                cands.setdefault(n.id, 0)
+                cands[n.id] += 1
+        for t in sorted(cands):
+            defs = [a for a in ast.walk(fn) if isinstance(a, ast.Assign) and len(a.targets) == 1 and isinstance(a.targets[0], ast.Name) and a.targets[0].id == t]
+            if len(defs) != cands[t] or len(defs) < 2 or not all(isinstance(a.value, ast.Constant) and isinstance(a.value.value, (str, int, bytes)) for a in defs):
+                continue
+            loads = [n for n in ast.walk(fn) if isinstance(n, ast.Name) and n.id == t and isinstance(n.ctx, ast.Load)]
+            covered = {}
+            for owner, fld, stmts in _blocks(fn):
+                cur = None
+                for st in stmts:
+                    if st in defs:
+                        cur = st
+                        continue
+                    if cur is None:
+                        continue
+                    inner_store = any(isinstance(n, ast.Name) and n.id == t and isinstance(n.ctx, (ast.Store, ast.Del)) for n in ast.walk(st))
+                    if inner_store:
+                        cur = None
+                        continue
+                    if isinstance(st, (ast.While, ast.For, ast.AsyncFor)):
+                        pass  # no store of t inside: the value is the same on every iteration
+                    for n in ast.walk(st):
+                        if isinstance(n, ast.Name) and n.id == t and isinstance(n.ctx, ast.Load):
+                            covered[id(n)] = cur
+            if not loads or any(id(n) not in covered for n in loads):
+                continue
+
+            class S(ast.NodeTransformer):
+                def visit_Name(self, node):
+                    if id(node) in covered:
+                        return ast.copy_location(ast.Constant(covered[id(node)].value.value), node)
+                    return node
+            fn.body = [S().visit(st) for st in fn.body]
+            for owner, fld, stmts in list(_blocks(fn)):
+                for a in defs:
+                    if a in stmts:
+                        stmts.remove(a)
+                        if not stmts:
+                            stmts.append(ast.copy_location(ast.Pass(), a))
+            rep.other.append(f"block-local constant `{t}` in {sc + '.' if sc else ''}{fn.name} propagated to its {len(loads)} read(s)")
+
+
+# ---------------------------------------------------------------------------------------------- N27 unpacked rows
+def index_unpacked_rows(modules, known, rep):
+    """a new `a, b, c = <row expression>` / `for a, b, c in <rows>` over three or more plain names is the row kept in one new local
+    and taken apart by position: `row__a = <row expression>; a = row__a[0]; b = row__a[1]; c = row__a[2]` (the element assignments
+    are then ordinary fresh locals: N6 puts `row__a[k]` where a name that is stored nowhere else is read)."""
+    for rel, sc, fn in all_functions(modules):
+        kh = _known_hashes(known, rel, sc, fn)
+        if kh is None:
+            continue
+        if any(isinstance(x, FUNC + (ast.Lambda,)) and x is not fn for x in ast.walk(fn)):
+            continue
+        params = set(_params(fn))
+        for owner, fld, stmts in list(_blocks(fn)):
+            i = 0
+            while i < len(stmts):
+                n = stmts[i]
+                i += 1
+                tgt = None
+                if isinstance(n, ast.Assign) and len(n.targets) == 1 and isinstance(n.targets[0], ast.Tuple) and not isinstance(n.value, (ast.Tuple, ast.List)) \
+                        and _is_fresh(n, fn, kh):
+                    tgt = n.targets[0]
+                elif isinstance(n, ast.For) and isinstance(n.target, ast.Tuple) and _is_fresh(n, fn, kh):
+                    tgt = n.target
+                if tgt is None or len(tgt.elts) < 3 or not all(isinstance(e, ast.Name) for e in tgt.elts):
+                    continue
+                names = [e.id for e in tgt.elts]
+                if len(set(names)) != len(names):
+                    continue
+                all_names = {m.id for m in ast.walk(fn) if isinstance(m, ast.Name)} | params
+                row = f"row__{next((x for x in names if x != '_'), 'x')}"
+                if row in all_names:
+                    continue
+                new_t = ast.copy_location(ast.Name(row, ast.Store()), tgt)
+                parts = []
+                for k, x in enumerate(names):
+                    if x == "_":
+                        continue
+                    a_ = ast.copy_location(ast.Assign([ast.Name(x, ast.Store())], ast.Subscript(ast.Name(row, ast.Load()), ast.Constant(k), ast.Load()), lineno=n.lineno), n)
+                    ast.fix_missing_locations(a_)
+                    parts.append(a_)
+                if isinstance(n, ast.Assign):
+                    n.targets[0] = new_t
+                    stmts[i:i] = parts
+                    i += len(parts)
+                else:
+                    n.target = new_t
+                    n.body[0:0] = parts
+                ast.fix_missing_locations(n)
+                rep.other.append(f"row unpacked into {names} in {sc + '.' if sc else ''}{fn.name} read by position")
+
+
 # ---------------------------------------------------------------------------------------------- N24 augmented assignment
 def expand_augassign(modules, known, rep):
     """a new `x -= c` / `x += c` on a plain local with a numeric constant is `x = x - c` (no in-place form exists for numbers)"""
@@ -1260,6 +1408,8 @@ def _pure(e, stable) -> bool:
         return all(_pure(x, stable) for x in e.elts)
     if isinstance(e, ast.Attribute):  # Enum member
         return isinstance(e.value, ast.Name) and e.value.id[:1].isupper()
+    if isinstance(e, ast.Subscript) and isinstance(e.value, ast.Name) and e.value.id.startswith("row__") and isinstance(e.slice, ast.Constant):
+        return e.value.id in stable  # a position of a row local introduced by N27 (only ever read by position)
     if isinstance(e, ast.Compare):
         return _pure(e.left, stable) and all(_pure(c, stable) for c in e.comparators)
     if isinstance(e, ast.BoolOp):
@@ -1323,10 +1473,11 @@ def propagate_fresh_locals(modules, known, rep):
                     ok, why = True, f"alias of the binding self.{attr}"
             else:
                 # N6: side-effect-free value over operands that are not assigned after the definition
-                line = defn.lineno
+                order0 = _preorder(fn)
                 stable = set()
                 for nm in {x.id for x in ast.walk(v) if isinstance(x, ast.Name)}:
-                    later = [x for x in ast.walk(fn) if isinstance(x, ast.Name) and x.id == nm and isinstance(x.ctx, (ast.Store, ast.Del)) and x.lineno >= line]
+                    later = [x for x in ast.walk(fn) if isinstance(x, ast.Name) and x.id == nm and isinstance(x.ctx, (ast.Store, ast.Del))
+                             and order0.get(id(x), 1 << 30) > order0[id(defn)]]
                     in_loop_before = False
                     if not later:
                         stable.add(nm)
@@ -1374,6 +1525,8 @@ def propagate_fresh_locals(modules, known, rep):
 
 def _reads_state(e) -> bool:
     for x in ast.walk(e):
+        if isinstance(x, ast.Subscript) and isinstance(x.value, ast.Name) and x.value.id.startswith("row__") and isinstance(x.slice, ast.Constant):
+            continue  # a position of a private row local (N27): nothing else refers to that object
         if isinstance(x, (ast.Attribute, ast.Subscript)) and not (isinstance(x, ast.Attribute) and isinstance(x.value, ast.Name) and x.value.id[:1].isupper()):
             return True
         if isinstance(x, ast.Compare) and any(isinstance(o, (ast.In, ast.NotIn)) for o in x.ops) and not all(
